@@ -143,6 +143,12 @@ void CFGNode::ConnectTo(CFGNode* node) {
   this->backward_reachability_->add_connection(node->id(), this->id());
 }
 
+void CFGNode::set_condition(Binding* condition) {
+  // The solver memoizes answers that depend on node conditions.
+  program_->InvalidateSolver();
+  condition_ = condition;
+}
+
 bool CFGNode::HasCombination(const std::vector<const Binding*>& bindings) {
   return program_->GetSolver()->Solve(bindings, this);
 }
